@@ -210,10 +210,18 @@ func equal(lhsV, rhsV reflect.Value) bool {
 	if (!lhsIsNil && rhsIsNil) || (lhsIsNil && !rhsIsNil) {
 		return false
 	}
-	if lhsV.Kind() == reflect.Interface || lhsV.Kind() == reflect.Ptr {
+	// an interface value first, then a pointer: both operands end up as what is pointed to,
+	// wherever they came from
+	if lhsV.Kind() == reflect.Interface {
 		lhsV = lhsV.Elem()
 	}
-	if rhsV.Kind() == reflect.Interface || rhsV.Kind() == reflect.Ptr {
+	if lhsV.Kind() == reflect.Ptr && !lhsV.IsNil() {
+		lhsV = lhsV.Elem()
+	}
+	if rhsV.Kind() == reflect.Interface {
+		rhsV = rhsV.Elem()
+	}
+	if rhsV.Kind() == reflect.Ptr && !rhsV.IsNil() {
 		rhsV = rhsV.Elem()
 	}
 
